@@ -65,6 +65,10 @@ func (e *seqEngine) Run(a *agg, spec *PropSpec, seed uint64) {
 	gen := NewOpGen(&rng2, &sc.Cfg, &e.profile)
 	out := RunSeq(seed, sc, gen, nops, true)
 	a.st.Runs++
+	if a.det {
+		a.detLines = append(a.detLines, fmt.Sprintf("%d %016x %d %016x %d", seed, out.LogHash, out.SimSteps, uint64(0), len(out.Viol)))
+		return
+	}
 	a.st.OpsExecuted += out.Steps
 	a.st.SimSteps += out.SimSteps
 	a.st.SimTimeNs += float64(out.SimTime)
